@@ -177,6 +177,7 @@ def session(arg):
             except Exception as e:      # noqa
                 out['first_interact_error'] = type(e).__name__
             th1.join(3)
+            raw_set.clear()
             while select.select([om], [], [], 0.05)[0]:
                 os.read(om, 65536)
         # pending text: the child prints it, a timed-out expect_exact reads it without handing it back
@@ -249,6 +250,12 @@ def session(arg):
             return orig_isalive()
         p.isalive = isalive
 
+        pend_seen = out.get('pending_seen') or ''
+        try:
+            shown_target = [len(pend_seen.encode(case.get('encoding') or 'latin-1', 'replace'))]
+        except LookupError:
+            shown_target = [len(pend_seen)]
+
         def user():
             raw_set.wait(3.0)
             for st in case['steps']:
@@ -262,9 +269,13 @@ def session(arg):
                         time.sleep(0.03)
                 elif st[0] == 'say':
                     b = bytes.fromhex(st[1])
-                    n0 = len(display)
+                    w0 = report()['wrote']
                     os.write(ctl, b'S ' + st[1].encode() + b'\n')
-                    wait(lambda: len(display) >= n0 + len(apply_f(case.get('fout'), b)), 2.0)
+                    # first the child has really written it, then it has had time to cross the loop: the target is an absolute count (pending
+                    # text + everything said so far), so that the flush of the pending text cannot be mistaken for this chunk
+                    wait(lambda: report()['wrote'] >= w0 + len(b), 5.0)
+                    shown_target[0] += len(apply_f(case.get('fout'), b))
+                    wait(lambda: len(display) >= shown_target[0], 2.0)
                     if not apply_f(case.get('fout'), b):
                         time.sleep(0.08)          # nothing to wait for on the display: let the loop read this chunk on its own
                 elif st[0] == 'burst_exit' and case.get('dead_first'):
@@ -524,6 +535,10 @@ CORPUS = [
     # the child's terminal takes three bytes per write: everything typed still arrives, also what precedes the escape character in its read
     dict(steps=[T(b'hello world\n' + ESC + b'ignored\n')], esc=chr(29), short=3),
     dict(steps=[T(b'0123456789abcdef', 16), S_(b'ok'), T(b'xyz' + ESC)], esc=chr(29), short=3, poll=True),
+    # an escape character beyond ASCII is the byte of that value (the loop copies bytes), whatever text encoding the object was given
+    dict(steps=[S_(b'plain'), T(b'ab\xffcd')], esc=chr(255), encoding='ascii'),
+    dict(steps=[T(b'xy\xe9zz')], esc=chr(0xe9), encoding='latin-1', poll=True),
+    dict(steps=[T(b'ab\xff')], esc=chr(255)),
     # no escape character: ^] is data
     dict(steps=[T(b'a' + ESC + b'b', 3), ['quit']], esc=None),
     # filters
